@@ -175,7 +175,14 @@ func VerifC01Arrays() {
 		x = bin("+", x, litArr(1))
 	}
 	p.Step(asg("x", x), true, "base")
-	ext := func(of string) node.Type { return bin("+", nm(of), litArr(1+vrt.Choice("ext-len", 2))) }
+	chained := vrt.Bool("chained-extension")
+	ext := func(of string) node.Type {
+		e := bin("+", nm(of), litArr(1+vrt.Choice("ext-len", 2)))
+		if chained {
+			e = bin("+", e, litArr(1)) // a chain: the second + works on the first one's result
+		}
+		return e
+	}
 	switch vrt.Choice("shape", 5) {
 	case 0: // two extensions of the same array
 		p.Step(asg("y", ext("x")), true, "first-extension")
